@@ -44,6 +44,7 @@ type Contract struct {
 	Borrows  []string
 	CallAssume map[string][]Clause
 	CallGhost  map[string][]GhostSet
+	AtCall     map[string][]GhostSet
 	ExitGhost []GhostSet // ghost assignments performed at every return, before the postconditions are checked
 	Fresh    bool // results of linear type are fresh owned resources (default true)
 	Opts     map[string]string
@@ -195,7 +196,7 @@ func (cs *ContractSet) loadContractFile(path, pkg string) error {
 		}
 		switch kw {
 		case "ghost", "pure", "ufunc", "const", "monotone", "atomic", "linear", "typeinv", "typestep", "lockhavoc", "func", "iface", "extern", "lemma", "axiom",
-			"arith", "requires", "ensures", "modifies", "loop", "inline", "trusted", "borrows", "opt", "package", "exitghost", "callassume", "callghost":
+			"arith", "requires", "ensures", "modifies", "loop", "inline", "trusted", "borrows", "opt", "package", "exitghost", "callassume", "callghost", "atcall":
 			if err := flush(); err != nil {
 				return err
 			}
@@ -472,6 +473,28 @@ func (cs *ContractSet) addClause(cur **Contract, pkg, kw, rest, where string) er
 				c.CallGhost = map[string][]GhostSet{}
 			}
 			c.CallGhost[f[0]] = append(c.CallGhost[f[0]], GhostSet{Target: tgt, Val: val, Cond: SCall{Fun: "fresh", Args: []SExpr{call.Args[0]}}, Src: body})
+		case "atcall":
+			// atcall <callee> g(x) := e : a history (ghost) update this function
+			// performs right before each of its calls to <callee>; x and e are
+			// written over this function's own parameters and locals.
+			f := strings.Fields(rest)
+			body := strings.TrimSpace(strings.TrimPrefix(rest, f[0]))
+			i := strings.Index(body, ":=")
+			if len(f) < 2 || i < 0 {
+				return fmt.Errorf("%s: malformed atcall", where)
+			}
+			tgt, err := parseSpec(body[:i])
+			if err != nil {
+				return fmt.Errorf("%s: %v", where, err)
+			}
+			val, err := parseSpec(body[i+2:])
+			if err != nil {
+				return fmt.Errorf("%s: %v", where, err)
+			}
+			if c.AtCall == nil {
+				c.AtCall = map[string][]GhostSet{}
+			}
+			c.AtCall[f[0]] = append(c.AtCall[f[0]], GhostSet{Target: tgt, Val: val, Cond: SIdent{Name: "true"}, Src: body})
 		case "callassume":
 			// callassume <callee> <expr>: an ASSUMPTION made just before calls to
 			// <callee> inside this function (facts the verifier cannot derive,
